@@ -155,7 +155,8 @@ def run(ck):
                 break
     # faults in root / include / incbin
     f_cases = []
-    files0 = {"/w/main.asm": '@db 1\n@include "i.inc"\n@incbin "b.bin"\n@db "é"\n', "/w/i.inc": '@db 2, "€"\n', "/w/b.bin": bytes(range(7, 16))}
+    files0 = {"/w/main.asm": '@db 1 ; note é\n; a whole-line comment\n@include "i.inc"\n@incbin "b.bin"\n@db "é" ;tail',
+              "/w/i.inc": '; header comment €\n@db 2, "€"\n', "/w/b.bin": bytes(range(7, 16))}
     for path, content in files0.items():
         n = len(content.encode() if isinstance(content, str) else content)
         for k in range(0, n + 1):
@@ -171,6 +172,30 @@ def run(ck):
         ck.count("asm-fault:" + ar.kind)
         if ar.ok or ar.crashed:
             ck.violation("read fault at offset %d of %s: run ended %s instead of a diagnostic" % (k, path, ar.canon()),
+                         {"mode": "asm", "harness_case": c, "expected": "DIAG"})
+            break
+    # a byte that is not UTF-8 (Latin-1 e-acute, a lone continuation byte, a truncated lead) at every offset of the
+    # source files -- in code, strings and comments alike -- must fail the run
+    b_cases = []
+    for path in ("/w/main.asm", "/w/i.inc"):
+        data = files0[path].encode("utf8")
+        for k in range(0, len(data) + 1):
+            # keep to character boundaries so that the only defect is the inserted byte
+            if k < len(data) and (data[k] & 0xC0) == 0x80:
+                continue
+            for bad in (b"\xe9", b"\x80", b"\xe2\x82"):
+                fl = dict(files0); fl[path] = data[:k] + bad + data[k:]
+                if bad == b"\xe2\x82" and k < len(data) and (data[k] & 0xC0) == 0x80:
+                    continue
+                b_cases.append((path, k, bad, asm_case("z80", files=fl, opts="chunks=%d,%d,%d" % (rng.randrange(1, 5), rng.randrange(1, 5), rng.randrange(1, 5)))))
+    b_impl = run_cases(harness, [c for _, _, _, c in b_cases])
+    ck.evaluations += len(b_cases)
+    for (path, k, bad, c), r in zip(b_cases, b_impl):
+        ar = AsmResult(r)
+        ck.nontriv(c)
+        ck.count("asm-badbyte:" + ar.kind)
+        if ar.ok or ar.crashed:
+            ck.violation("bytes %s inserted at offset %d of %s (not UTF-8): run ended %s instead of a diagnostic" % (bad.hex(), k, path, ar.canon()),
                          {"mode": "asm", "harness_case": c, "expected": "DIAG"})
             break
     return ck
